@@ -68,7 +68,7 @@ class Budget(Exception):
     pass
 
 
-SPLIT_COMBINATORS = {'map', 'and_then', 'map_err', 'or_else', 'unwrap_or', 'unwrap_or_else', 'ok_or', 'ok_or_else', 'map_or', 'ok', 'err'}
+SPLIT_COMBINATORS = {'map', 'and_then', 'map_err', 'or_else', 'unwrap_or', 'unwrap_or_else', 'ok_or', 'ok_or_else', 'map_or', 'map_or_else', 'is_some_and', 'is_ok_and', 'is_none_or', 'ok', 'err'}
 
 
 class Fork:
@@ -146,6 +146,17 @@ def expand_results(rets):
         else:
             out.append(r)
     return out
+
+
+class Otherwise(tuple):
+    """the `otherwise` edge of a switch: equal to SYM('otherwise'), and remembers the values the edge excludes"""
+    def __new__(cls, excluded=()):
+        o = tuple.__new__(cls, ('sym', 'otherwise'))
+        o.excluded = frozenset(excluded)
+        return o
+
+    def __reduce__(self):
+        return (Otherwise, (tuple(self.excluded),))
 
 
 def apps(v, out=None):
@@ -286,6 +297,10 @@ class Interp:
         if c['k'] == 'zst':
             return ('tuple', ())
         if c['k'] == 'fn':
+            r_ = c.get('resolved')
+            if r_ and self.prog.by_path.get(c['def']) is None and self.prog.by_path.get(r_) is not None:
+                # a trait method named as a function item resolves to a crate impl: the same function a direct call reaches
+                return ('fn', r_)
             return ('fn', c['def'])
         if c['k'] == 'unevaluated' and c.get('promoted') is not None:
             return self.promoted(fn, c['promoted'])
@@ -562,6 +577,22 @@ class Interp:
                     cur[args[0][1]] = len(args[0][2])
                     env['__iter'] = cur
                     return ('paths', res), args
+            if name in ('fold', 'try_fold') and len(args) == 3 and args[0][0] == 'iter' and args[2][0] in ('closure', 'fn') \
+                    and path_endswith(tr, 'iter::Iterator') and depth < self.max_depth:
+                cur = dict(env.get('__iter') or {})
+                start = cur.get(args[0][1], 0)
+                wrap = None
+                if name == 'try_fold':
+                    ga = [g_.split('<')[0] for g_ in (c.get('args') or [])]
+                    if any(g_.endswith('result::Result') for g_ in ga):
+                        wrap = 'res'
+                    elif any(g_.endswith('option::Option') for g_ in ga):
+                        wrap = 'opt'
+                res = self._iter_fold(wrap, args[0][2], start, args[1], args[2], depth) if (name == 'fold' or wrap) else None
+                if res is not None:
+                    cur[args[0][1]] = len(args[0][2])
+                    env['__iter'] = cur
+                    return ('paths', res), args
             if name == 'next' and len(args) == 1 and args[0][0] == 'iter':
                 cur = dict(env.get('__iter') or {})
                 i = cur.get(args[0][1], 0)
@@ -792,6 +823,33 @@ class Interp:
                     out += [(v, e2 + e3) for v, e3 in rest]
         return out
 
+    def _iter_fold(self, wrap, elems, i, acc, f, depth):
+        """Iterator::fold (wrap None) / try_fold (wrap 'res' | 'opt') over a concrete element list, unrolled: the accumulator is
+        threaded through the closure; try_fold stops at the first Err / None. Returns [(value, effects)] or None (not modelled)."""
+        if i >= len(elems):
+            return [((OK(acc) if wrap == 'res' else SOME(acc)) if wrap else acc, ())]
+        r = self.apply_callable(f, [acc, elems[i]], depth)
+        if r is None:
+            return None
+        outcomes = r[1] if (isinstance(r, tuple) and r and r[0] == 'paths') else [(r, ())]
+        out = []
+        for val, eff in outcomes:
+            if val == ('diverge',):
+                out.append((val, eff))
+                continue
+            if wrap:
+                if not is_adt(val, 'result::Result' if wrap == 'res' else 'option::Option'):
+                    return None
+                if val[3] in ('Err', 'None'):
+                    out.append((val, eff))
+                    continue
+                val = val[4][0]
+            rest = self._iter_fold(wrap, elems, i + 1, val, f, depth)
+            if rest is None:
+                return None
+            out += [(v, eff + e3) for v, e3 in rest]
+        return out
+
     def apply_callable(self, f, argv, depth):
         """apply an abstract callable (closure value or fn item) to abstract arguments; returns a value, ('paths', ..) or None"""
         if f[0] == 'closure':
@@ -880,6 +938,14 @@ class Interp:
             return v
         if name == 'map_or' and len(args) == 3:
             return lift(self.apply_callable(args[2], [payload], depth), lambda x: x) if good else args[1]
+        if name == 'map_or_else' and len(args) == 3:
+            if good:
+                return lift(self.apply_callable(args[2], [payload], depth), lambda x: x)
+            return lift(self.apply_callable(args[1], [payload] if is_res else [], depth), lambda x: x)
+        if name in ('is_some_and', 'is_ok_and') and len(args) == 2:
+            return lift(self.apply_callable(args[1], [payload], depth), lambda x: x) if good else C(False)
+        if name == 'is_none_or' and is_opt and len(args) == 2:
+            return lift(self.apply_callable(args[1], [payload], depth), lambda x: x) if good else C(True)
         return None
 
     # -- function evaluation: all paths
@@ -1065,7 +1131,7 @@ class Interp:
                             nd = dict(decided)
                             nd[v] = dec
                             env2['__decided'] = nd
-                        eff2 = effects + (('<branch>', None, (v, C(val) if val is not None else SYM('otherwise')), t['span']),)
+                        eff2 = effects + (('<branch>', None, (v, C(val) if val is not None else Otherwise(dec[1] if dec[0] == 'not' else listed)), t['span']),)
                         self._run(fn, tg, env2, depth, out, eff2, e2)
                     return
             elif k == 'unreachable':
